@@ -549,7 +549,8 @@ func checkC20(p *Prog, r *Report) {
 			ok := false
 			if len(f.Body.List) == 1 {
 				if ret, isRet := f.Body.List[0].(*ast.ReturnStmt); isRet && len(ret.Results) == 1 {
-					ok = p.Term(ret.Results[0]).Key() == want.Key()
+					got := p.Term(ret.Results[0])
+					ok = got.Key() == want.Key() || normTerm(p.ExpandHelpers(got)).Key() == want.Key()
 				}
 			}
 			r.check(ok, "C20.Q2", f.Name, p.Pos(f.Node), name+" shape", pretty(want.Key()), name+" is not "+pretty(want.Key()))
@@ -631,7 +632,7 @@ func checkC20(p *Prog, r *Report) {
 			switch {
 			case t.IsConst() && t.Int == 0:
 				okS, why = true, "0"
-			case t.Key() == normTerm(mk("%", add(self, tConst(1)), le_)).Key() || rt.Key() == normTerm(mk("%", add(self, tConst(1)), le_)).Key():
+			case t.Key() == normTerm(mk("%", add(self, tConst(1)), le_)).Key() || rt.Key() == normTerm(mk("%", add(self, tConst(1)), le_)).Key() || normTerm(p.ExpandHelpers(t)).Key() == normTerm(mk("%", add(self, tConst(1)), le_)).Key():
 				okS, why = true, "(x + 1) % len(elements)"
 			case st.Fn.Name == "(*RingBuffer).Discard":
 				// end under end < cap ; end - cap otherwise, with end = head + n, n <= Len()
